@@ -98,6 +98,36 @@ theorem script_step' {s s' : St} {op : Op} (J : ScriptInvC s) (hop : op.good)
         · subst hi; rw [if_pos rfl, ext_incRef_self J.inv h2, J.exact x hf']
         · rw [if_neg hi, ext_incRef_other h2 hi]; exact J.exact x hf'
     · cases h
+  | deref a b =>
+    simp only [apply] at h
+    split at h
+    · next hc =>
+      simp only [Option.some.injEq] at h
+      subst h
+      obtain ⟨_, ha2⟩ := J.held a hc.2.1
+      have hea := J.ext_pos hc.2.1
+      have hmem : b ∈ (s.g.nodes.get a).owned := by
+        have := hc.2.2.2; simpa [State.node] using this
+      have h1 : b < s.g.nextId := J.inv.wf a b hmem
+      have h2 : (s.g.nodes.get b).freed = false := J.inv.noDangling a b ha2 hmem
+      have hl : Live s.g b := ⟨a, ha2, hea, .step (.refl a) ha2 hmem⟩
+      have F := rcOnly_incRef h2
+      refine ⟨gcinv_incRef J.inv h1 h2, bufinv_incRef_live J.inv J.buf h2 hl, fun x hx => ?_,
+        fun x hf => ?_⟩
+      · simp only [Store.get_set] at hx
+        show x < (incRef s.g b).nextId ∧ ((incRef s.g b).nodes.get x).freed = false
+        rw [F.nextId, F.freed]
+        by_cases hi : x = b
+        · subst hi; exact ⟨h1, h2⟩
+        · rw [if_neg hi] at hx; exact J.held x hx
+      · simp only [Store.get_set]
+        have hf' : ((incRef s.g b).nodes.get x).freed = false := hf
+        rw [F.freed] at hf'
+        show ext (incRef s.g b) x = _
+        by_cases hi : x = b
+        · subst hi; rw [if_pos rfl, ext_incRef_self J.inv h2, J.exact x hf']
+        · rw [if_neg hi, ext_incRef_other h2 hi]; exact J.exact x hf'
+    · cases h
   | dec a =>
     simp only [apply] at h
     split at h
